@@ -208,6 +208,24 @@ func runC02(c *fw.Ctx) {
 			gradCheck(k, in, xs, mask, g, "")
 		})
 	}
+	// Sin and Cos at arguments of LARGE magnitude (1e6 .. 1e15): differentiable everywhere, the derivative is cos(x) / -sin(x) of the very
+	// double x (an argument shifted by pi/2 and rounded again is another number at this spacing)
+	for i := 0; i < c.Pick(300, 6000); i++ {
+		c.Case(func(k *fw.K) {
+			r := k.Rng
+			shape := RandShape(r, 0, 2, 3)
+			x := ref.Zeros(shape)
+			for i := range x.Data {
+				x.Data[i] = math.Pow(10, 6+9*r.Float64()) * []float64{1, -1}[r.Intn(2)]
+			}
+			in := ref.Instr{Op: []string{"sin", "cos"}[r.Intn(2)]}
+			g := randG(k, shape)
+			k.Case = gcase{In: in, Ops: []*ref.T{x}, Tracked: []bool{true}, G: g}
+			k.Key("large-argument/%s/%s", in.Op, shapeKey(shape))
+			k.Count("large_trig_argument_cases", 1)
+			gradCheck(k, in, []*ref.T{x}, []bool{true}, g, "")
+		})
+	}
 	// Pow with a TINY non-zero exponent (|a| down to 1e-300: a - 1 rounds to -1, the exponent is still not 0) under an upstream
 	// weighting that makes a * x^(a-1) * g an ordinary number; and Scale by 1e+-300 under the opposite weighting
 	for i := 0; i < c.Pick(300, 6000); i++ {
